@@ -32,6 +32,9 @@ func Run(cfg hx.Config) (*hx.Meta, error) {
 		valid := true
 		for _, a := range c.Args {
 			valid = valid && a.ValidArg()
+			if a.K == "tup" && len(c.Args) > 1 {
+				valid = false // a multi-valued call is only allowed as the single argument
+			}
 		}
 		if !valid {
 			continue // the user file itself would not type-check: covered by the broken-file battery
